@@ -187,9 +187,24 @@ def concretise(program, users=USERS, tree=INITIAL_TREE, ipv6=False, profile="def
             after = [("cmd", "CDUP", ""), ("cmd", "CWD", ".."), ("cmd", "MLST", ""), ("cmd", "CDUP", "")][d_ % 4]
             block = [("cmd", "MKD", top + "/w"), ("cmd", "CWD", top + "/w"), ("cmd", "RNFR", "../../" + victim if victim == top else "../w"),
                      ("cmd", "RNTO", "/moved%d" % (b_ % 3)), after, "pwd", ("cmd", "CDUP", ""), "pwd"]
-            if d_ % 8 >= 4:
+            if d_ % 8 >= 6:
                 block[2:4] = [("cmd", "RMD", "../w")]  # remove the (empty) working directory itself instead
+            elif d_ % 8 >= 4:
+                # a sibling whose name is a string prefix of the working directory's ancestor is renamed: nothing moves
+                block = [("cmd", "MKD", top + "x/w"), ("cmd", "CWD", top + "x/w"), ("cmd", "MKD", "../../" + top),
+                         ("cmd", "RNFR", "../../" + top), ("cmd", "RNTO", "/moved%d" % (b_ % 3)), "pwd", ("cmd", "MLST", ""),
+                         ("cmd", "MKD", "here"), ("cmd", "CDUP", ""), "pwd"]
             program[i:i + 1] = block
+            step = program[i]
+        elif not isinstance(step, str) and len(step) == 5 and step[0] == 254 and m.logged() and len(m.users) > 1:
+            # directed block: the same (absolute) location is addressed before and after the connection logs in as another user
+            b_, c_, d_ = step[1], step[2], step[3]
+            target = resolve(m.cwd or "/", gen_path(m, c_, 9))
+            others = [u for u in m.users if u is not m.user]
+            other = others[b_ % len(others)]
+            login = [("cmd", "USER", other["login"] or "anonymous")] + ([("cmd", "PASS", other["password"])] if other["password"] is not None else [])
+            probe = [("cmd", "MLST", target), ("cmd", "CWD", target), "pwd", ("cmd", ["RMD", "DELE", "MKD", "RNFR"][d_ % 4], target)]
+            program[i:i + 1] = probe[:3] + login + probe
             step = program[i]
         cs = concretise_step(m, step, profile, user_names, passwords)
         if cs["verb"].upper() in pwd_after:
